@@ -16,7 +16,9 @@ PID = 'C13'
 LEAN_MODULES = ['ThermoVerif.Props.C13']
 RULE = ('grid: every (target kind x source kind x package relation) cell of copy_like, every subset of the '
         'link_with flags for single- and multi-phase pairs, proxy/flow_proxy/unlink/pickle for every kind; then '
-        'random histories (5-30 ops) of new/copy/copy_like/copy_thermal_condition/link_with/unlink/proxy/'
+        'copy(thermo=) for every kind onto the same / a permuted / a larger / a smaller package, every partial re-link '
+        'of a linked stream to a third stream; then '
+        'random histories (5-30 ops) of new/copy/copy(thermo=)/copy_like/copy_thermal_condition/link_with/unlink/proxy/'
         'flow_proxy/pickle and mutators (flow, T, P, phase, empty, price, characterization factor) over 2-6 '
         'streams of 4 property packages with dyadic values; a case is non-trivial when at least one '
         'copy/link/proxy/pickle operation was executed; distinct = distinct op sequences')
@@ -28,8 +30,14 @@ ASSUMPTIONS = [
     'domain: link_with between streams of different packages, flow-linking multi-phase streams with different phase '
     'sets, and copy_like that would change the phase set of a multi-phase stream whose flow array is shared with '
     'another indexer are outside the property (both sides answer `skip`)',
-    'phase views (ms[phase]), from_streams, copy(thermo=...), copy_flow and units/total_flow constructor arguments '
-    'are not generated; IDs of unnamed streams are not observed',
+    'from_streams, copy_flow and units/total_flow constructor arguments are not generated; IDs of unnamed streams '
+    'are not observed; phase views ms[phase] are not operands of the modelled operations: the oracle (real objects '
+    'only) checks after every operation that every phase view of every multi-phase stream is still attached to its '
+    'stream (same row object, same thermal condition, same values)',
+    'after every operation the oracle also checks, on the real objects, that (i) ID-keyed access (imol[ID], '
+    'imol[phase, ID], imol[phase, IDs]) agrees with the raw flow data of every stream, visiting the streams in both '
+    'orders, and (ii) pairwise sharing of flow data / phase container / thermal condition is exactly what the links, '
+    'proxies, flow proxies and unlinks of the history advertise',
     'Python pickle protocol itself is trusted; only __reduce__ / from_data / set_data are modelled; pickling of '
     'Reaction / ParallelReaction / Chemical / Thermo is checked by the oracle on the real objects (observable state '
     'before vs after) and modelled only as slot-wise reconstruction (theorem slot_pickle_roundtrip)',
@@ -48,7 +56,7 @@ PKGS = {}          # package name -> list of small ints
 EXTRA = {}         # objects for pickleobj
 NAMES = ['Water', 'Ethanol', 'Methanol', 'Octane']
 PKG_DEF = {'A': ['Water', 'Ethanol', 'Methanol'], 'B': ['Methanol', 'Water'],
-           'C': ['Ethanol', 'Water', 'Methanol', 'Octane']}
+           'C': ['Ethanol', 'Water', 'Methanol', 'Octane'], 'D': ['Methanol', 'Ethanol', 'Water']}
 PH_ORDER = 'LSgls'
 SINGLE_PHASES = ['g', 'l', 's', 'L', 'S']
 MULTI_PHASES = ['g,l', 'l,s', 'g,l,s', 'L,l', 'L,s', 'L,g', 'S,l', 'g', 'l', 'L,S,g,l,s']
@@ -79,12 +87,12 @@ def setup():
                                            rxn.Reaction('Ethanol -> Methanol', reactant='Ethanol', X=0.125,
                                                         check_atomic_balance=False, check_mass_balance=False)])]
     EXTRA['chem'] = [chems[n] for n in NAMES]
-    EXTRA['thermo'] = [TH[k] for k in ('A', 'B', 'C')]
+    EXTRA['thermo'] = [TH[k] for k in ('A', 'B', 'C', 'D')]
     tmo.settings.set_thermo(TH['A'])
 
 
 def budget(tier):
-    return {'quick': dict(seconds=60, cases=2000, shrink_s=15, search_s=5),
+    return {'quick': dict(seconds=70, cases=2600, shrink_s=15, search_s=5),
             'thorough': dict(seconds=400, cases=30000, shrink_s=40, search_s=20)}[tier]
 
 
@@ -149,11 +157,138 @@ def full(s):
     return (cond(s), s.price, tuple(sorted(cf_of(s).items())), sid_of(s), tuple(pkg_of(s)))
 
 
+def cond_keyed(s):
+    """the same flows read through ID-keyed access (`imol[ID]`, `imol[phase, ID]`, `imol[phase, IDs]`)"""
+    IDs = tuple(s.chemicals.IDs)
+    cas = [CAS_ID.get(c, 0) for c in s.chemicals.CASs]
+    out = []
+    if is_multi(s):
+        for p in phases_of(s):
+            one = {c: float(s.imol[p, i]) for c, i in zip(cas, IDs)}
+            rev = s.imol[p, IDs[::-1]]
+            many = {c: float(v) for c, v in zip(cas[::-1], rev)}
+            out.append((p, tuple(sorted((c, v) for c, v in one.items() if v)),
+                        tuple(sorted((c, v) for c, v in many.items() if v))))
+        tot = tuple(sorted((c, float(s.imol[i])) for c, i in zip(cas, IDs) if float(s.imol[i])))
+        out.append(('*', tot, tot))
+    else:
+        one = {c: float(s.imol[i]) for c, i in zip(cas, IDs)}
+        rev = s.imol[IDs[::-1]]
+        many = {c: float(v) for c, v in zip(cas[::-1], rev)}
+        out.append((phases_of(s)[0], tuple(sorted((c, v) for c, v in one.items() if v)),
+                    tuple(sorted((c, v) for c, v in many.items() if v))))
+    return tuple(out)
+
+
+def cond_raw_as_keyed(s):
+    """what `cond_keyed` must return, computed from the raw flow data"""
+    out = []
+    rows = [tuple(sorted(row_dict(s, r).items())) for r in rows_of(s)]
+    for p, r in zip(phases_of(s), rows):
+        out.append((p, r, r))
+    if is_multi(s):
+        tot = {}
+        for r in rows:
+            for c, v in r: tot[c] = tot.get(c, 0.) + v
+        t = tuple(sorted((c, v) for c, v in tot.items() if v))
+        out.append(('*', t, t))
+    return tuple(out)
+
+
+class Exp:
+    """What the history advertises about sharing: one token per shareable part and stream.
+    (Only who shares what with whom; no values.)"""
+    def __init__(self):
+        self.t = []
+        self.n = 0
+
+    def fresh(self):
+        self.n += 1
+        return self.n
+
+    def new(self):
+        self.t.append({k: self.fresh() for k in ('imol', 'data', 'phase', 'tc')})
+
+    def renew(self, i, parts):
+        for k in parts: self.t[i][k] = self.fresh()
+
+    def followers(self, i):
+        return [u for u in range(len(self.t)) if self.t[u]['imol'] == self.t[i]['imol']]
+
+
 class World:
     def __init__(self):
         self.streams = []
         self.tags = []
+        self.exp = Exp()
+        self.views = {}        # (stream index, phase) -> the phase view obtained when first seen (held, not re-fetched)
+        self.view_excluded = set()  # streams whose indexer object was re-linked through ANOTHER stream (a proxy partner)
         tmo.Stream.registry.clear()
+
+    def check_sharing(self, op, line):
+        """sharing between every two streams is exactly what the links / proxies of the history advertise"""
+        S, E = self.streams, self.exp.t
+        assert len(S) == len(E), (len(S), len(E))
+        for i in range(len(S)):
+            for j in range(i + 1, len(S)):
+                a, b = S[i], S[j]
+                real = {'data': a._imol.data is b._imol.data, 'tc': a._thermal_condition is b._thermal_condition}
+                if not is_multi(a) and not is_multi(b):
+                    real['phase'] = a._imol._phase is b._imol._phase
+                for part, r in real.items():
+                    want = E[i][part] == E[j][part]
+                    if r != want:
+                        what = ('share their ' if r else 'do not share their ') + \
+                               {'data': 'flow data', 'tc': 'thermal condition', 'phase': 'phase'}[part]
+                        raise OracleFail(f'{op}:sharing-{part}-{"extra" if r else "missing"}',
+                                         f'after `{line}` streams {i} and {j} {what}, but the links, proxies and '
+                                         f'unlinks of the history say they should{" not" if r else ""}')
+
+    def check_keyed(self, op, line):
+        """ID-keyed access agrees with the flow data, on every stream, in both visiting orders"""
+        for order in (range(len(self.streams) - 1, -1, -1), range(len(self.streams))):
+            for j in order:
+                s = self.streams[j]
+                try:
+                    k = cond_keyed(s)
+                except Exception as e:
+                    raise OracleFail(f'{op}:keyed-access-raises', f'after `{line}` ID-keyed access to stream {j} raised {e!r}')
+                r = cond_raw_as_keyed(s)
+                if k != r:
+                    raise OracleFail(f'{op}:keyed-access',
+                                     f'after `{line}` stream {j} read by chemical ID gives {k} but its flow data is {r}')
+
+    def check_views(self, op, line):
+        """phase views ms[p], once obtained, stay live: same row object and thermal condition as the stream, same values.
+        (Left out: a stream whose flows were re-bound because its proxy partner — same indexer object — was linked to
+        a third stream; what views handed out by such a stream should follow is not determined by the property.)"""
+        for j, s in enumerate(self.streams):
+            if not is_multi(s) or j in self.view_excluded:
+                for key in [k for k in self.views if k[0] == j]: del self.views[key]
+                continue
+            for k, p in enumerate(phases_of(s)):
+                v = self.views.get((j, p))
+                if v is None:
+                    try:
+                        v = s[p]
+                    except Exception as e:
+                        raise OracleFail(f'{op}:view-raises', f'after `{line}` stream {j}[{p!r}] raised {e!r}')
+                    self.views[(j, p)] = v
+                row = s._imol.data.rows[k]
+                if v._imol.data.dct is not row.dct:
+                    raise OracleFail(f'{op}:view-stale-flows', f'after `{line}` the phase view {j}[{p!r}] (obtained earlier) is '
+                                                               f'not attached to the flow data of its stream any more')
+                if v._thermal_condition is not s._thermal_condition:
+                    raise OracleFail(f'{op}:view-stale-TP', f'after `{line}` the phase view {j}[{p!r}] (obtained earlier) does '
+                                                            f'not share the thermal condition of its stream any more')
+                if v.phase != p or (v.T, v.P) != (s.T, s.P):
+                    raise OracleFail(f'{op}:view-values', f'after `{line}` the phase view {j}[{p!r}] reports phase/T/P '
+                                                          f'{v.phase, v.T, v.P}, its stream {p, s.T, s.P}')
+                ids = tuple(s.chemicals.IDs)
+                if [float(v.imol[i]) for i in ids] != [float(s.imol[p, i]) for i in ids]:
+                    raise OracleFail(f'{op}:view-values', f'after `{line}` the phase view {j}[{p!r}] and its stream report '
+                                                          f'different flows')
+
 
     def show(self):
         seen = []
@@ -238,7 +373,7 @@ def apply(W: World, line: str):
     op = t[0]
     S = W.streams
     mentioned = []
-    if op in ('setflow', 'setT', 'setP', 'setphase', 'empty', 'setprice', 'setcf', 'copy', 'unlink', 'proxy',
+    if op in ('setflow', 'setT', 'setP', 'setphase', 'empty', 'setprice', 'setcf', 'copy', 'copyto', 'unlink', 'proxy',
               'flowproxy', 'pickle'):
         mentioned = [int(t[1])]
     elif op in ('copylike', 'copytc', 'link'):
@@ -259,6 +394,16 @@ def apply(W: World, line: str):
             for part in ids:
                 if len(ids[part]) != len(now[part]) or any(a is not b for a, b in zip(ids[part], now[part])):
                     raise OracleFail(f'{op}:frame', f'stream {j}, not involved in `{line}`, had its {part} rebound')
+
+    E = W.exp
+    was_multi = [is_multi(x) for x in ms]
+
+    def finish():
+        check_frame()
+        W.check_sharing(op, line)
+        W.check_keyed(op, line)
+        W.check_views(op, line)
+        return 'ok ' + W.show()
 
     if op == 'new':
         kind, sid, pkg, phases, flows, T, P, price, cf = t[1:]
@@ -286,8 +431,8 @@ def apply(W: World, line: str):
                                               f'stream holds {got}')
         if (s.T, s.P) != (fl(T), fl(P)): raise OracleFail(f'new/{tag}:TP', 'T/P given at construction not stored')
         if sid_of(s) != (None if sid == '-' else int(sid)): raise OracleFail(f'new/{tag}:ID', 'ID not stored')
-        check_frame()
-        return 'ok ' + W.show()
+        E.new()
+        return finish()
 
     if op == 'setflow':
         s = S[int(t[1])]
@@ -300,6 +445,7 @@ def apply(W: World, line: str):
         S[int(t[1])].P = fl(t[2])
     elif op == 'setphase':
         S[int(t[1])].phase = t[2]
+        if was_multi[0]: E.renew(int(t[1]), ('imol', 'data', 'phase'))
     elif op == 'empty':
         S[int(t[1])].empty()
     elif op == 'setprice':
@@ -323,7 +469,59 @@ def apply(W: World, line: str):
             if sh: raise OracleFail(f'copy/{k}:shares-{sh[0]}', f'the copy shares its {sh} with stream {j}')
         probe_independent(c, S, f'copy/{k}:not-independent')
         probe_independent(s, [c], f'copy/{k}:not-independent')
-        S.append(c)
+        S.append(c); E.new()
+
+    elif op == 'copyto':
+        s = S[int(t[1])]
+        k = kind_tag(s)
+        name = pkg_name(t[2])
+        th = TH[name]
+        rel = 'same' if th.chemicals is s.chemicals else ('perm' if sorted(PKGS[name]) == sorted(pkg_of(s)) else
+                                                         ('super' if set(pkg_of(s)) <= set(PKGS[name]) else 'other'))
+        W.tags.append(f'copyto:{k}/{rel}')
+        before = full(s)
+        keyed_before = cond_keyed(s)
+        held = {c for r in rows_of(s) for c in row_dict(s, r)}
+        missing = any(c not in PKGS[name] for c in held)
+        try:
+            c = s.copy(thermo=th)
+        except Exception as e:
+            if missing and errname(e) == 'UndefinedChemical':
+                return 'err=UndefinedChemical'
+            raise OracleFail(f'copyto/{k}:raises-{type(e).__name__}', f'copy(thermo=...) ({rel} package) raised {e!r}')
+        if missing:
+            raise OracleFail(f'copyto/{k}:no-error', 'the stream holds a chemical the package lacks, yet copy(thermo=) succeeded')
+        if c.chemicals is not th.chemicals:
+            raise OracleFail(f'copyto/{k}:package', 'the copy does not use the requested property package')
+        if cond(c) != cond(s) or is_multi(c) != is_multi(s):
+            raise OracleFail(f'copyto/{k}:not-equal', f'copy onto a {rel} package has {cond(c)}, original {cond(s)}')
+        try:
+            kc = cond_keyed(c)
+        except Exception as e:
+            raise OracleFail(f'copyto/{k}:keyed-access-raises', f'ID-keyed access to the copy raised {e!r}')
+        if kc != keyed_before or cond_keyed(s) != keyed_before:
+            raise OracleFail(f'copyto/{k}:keyed-not-equal',
+                             f'read by chemical ID the copy onto a {rel} package gives {kc}, the original gave '
+                             f'{keyed_before} before and gives {cond_keyed(s)} now')
+        if full(s) != before: raise OracleFail(f'copyto/{k}:source-changed', 'copy(thermo=) changed the original')
+        for j, y in enumerate(S):
+            sh = shared_parts(c, y)
+            if sh: raise OracleFail(f'copyto/{k}:shares-{sh[0]}', f'the copy shares its {sh} with stream {j}')
+        probe_independent(c, S, f'copyto/{k}:not-independent')
+        probe_independent(s, [c], f'copyto/{k}:not-independent')
+        # a write by ID on the copy hits that chemical and leaves the original alone
+        cid = PKGS[name][0]
+        ph = phases_of(c)[0]
+        key = (ph, ID_OF[cid]) if is_multi(c) else ID_OF[cid]
+        old = float(c.imol[key])
+        c.imol[key] = old + 1.
+        got = row_dict(c, rows_of(c)[0]).get(cid, 0.)
+        c.imol[key] = old
+        if got != old + 1.:
+            raise OracleFail(f'copyto/{k}:keyed-write', f'writing {ID_OF[cid]} by ID on the copy changed another chemical')
+        if full(s) != before or cond(c) != cond(s):
+            raise OracleFail(f'copyto/{k}:keyed-write', 'a write by ID on the copy (undone afterwards) left a trace')
+        S.append(c); E.new()
 
     elif op == 'copylike':
         tg, sr = S[int(t[1])], S[int(t[2])]
@@ -373,6 +571,7 @@ def apply(W: World, line: str):
                 raise OracleFail(f'copylike/{cell}:stale', f'target phase {p} keeps {d} that the source does not have')
         if not aliased and full(sr) != src_before:
             raise OracleFail(f'copylike/{cell}:source-changed', 'copy_like changed its source')
+        if was_single and is_multi(tg): E.renew(int(t[1]), ('imol', 'data', 'phase'))
 
     elif op == 'copytc':
         tg, sr = S[int(t[1])], S[int(t[2])]
@@ -404,6 +603,13 @@ def apply(W: World, line: str):
             if not want[q] and after[q] != before[q]:
                 raise OracleFail(f'link/{k}:extra-{q}', f'link_with(flow={f}, phase={p}, TP={tp}) changed the sharing of {q}')
         if full(sr) != src_before: raise OracleFail(f'link/{k}:source-changed', 'link_with changed the other stream')
+        ti, si = int(t[1]), int(t[2])
+        if f: W.view_excluded.update(u for u in E.followers(ti) if u != ti)
+        if tp: E.t[ti]['tc'] = E.t[si]['tc']
+        if f:
+            for u in E.followers(ti): E.t[u]['data'] = E.t[si]['data']
+        if p and not is_multi(tg):
+            for u in E.followers(ti): E.t[u]['phase'] = E.t[si]['phase']
 
     elif op == 'unlink':
         s = S[int(t[1])]
@@ -421,6 +627,7 @@ def apply(W: World, line: str):
             if sh:
                 raise OracleFail(f'unlink/{k}:still-shared-{sh[0]}', f'after unlink the stream still shares {sh} with stream {j}')
         probe_independent(s, [y for y in S if y is not s], f'unlink/{k}:not-independent')
+        E.renew(int(t[1]), ('imol', 'data', 'phase', 'tc'))
 
     elif op in ('proxy', 'flowproxy'):
         s = S[int(t[1])]
@@ -437,7 +644,10 @@ def apply(W: World, line: str):
         for q, wnt in want.items():
             if wnt and q not in sh: raise OracleFail(f'{op}/{k}:not-shared-{q}', f'{op} does not share {q}')
             if not wnt and q in sh: raise OracleFail(f'{op}/{k}:extra-{q}', f'{op} shares {q}')
-        S.append(c)
+        S.append(c); E.new()
+        if op == 'proxy':
+            E.t[-1] = dict(E.t[int(t[1])])
+        else: E.t[-1]['data'] = E.t[int(t[1])]['data']
 
     elif op == 'pickle':
         s = S[int(t[1])]
@@ -457,8 +667,19 @@ def apply(W: World, line: str):
             sh = shared_parts(c, y)
             if sh: raise OracleFail(f'pickle/{k}:shares-{sh[0]}', f'unpickled stream shares {sh} with stream {j}')
         probe_independent(c, S, f'pickle/{k}:not-independent')
-        S.append(c)
+        if [x for x in cond_keyed(c) if x[0] != '*'] != [x for x in cond_keyed(s) if x[0] != '*']:
+            raise OracleFail(f'pickle/{k}:keyed-not-equal', 'read by chemical ID the unpickled stream differs from the original')
+        S.append(c); E.new()
 
+    elif op == 'view':
+        # oracle-only: somebody takes a phase view (nothing for the model; held views are checked after every op)
+        i, ph = int(t[1]), t[2]
+        if i < len(S) and is_multi(S[i]) and ph in phases_of(S[i]):
+            try:
+                v = S[i][ph]
+            except Exception as e:
+                raise OracleFail(f'view:raises-{type(e).__name__}', f'stream {i}[{ph!r}] raised {e!r}')
+            if i not in W.view_excluded: W.views.setdefault((i, ph), v)
     elif op == 'pickleobj':
         kind, n = t[1], int(t[2])
         obj = EXTRA[kind][n % len(EXTRA[kind])]
@@ -476,8 +697,7 @@ def apply(W: World, line: str):
             raise OracleFail(f'pickleobj/{kind}:{diff[0]}', f'unpickled {kind} differs in {diff}: {[(a.get(k), b[k]) for k in diff][:2]}')
     else:
         raise ValueError('unknown op ' + line)
-    check_frame()
-    return 'ok ' + W.show()
+    return finish()
 
 
 def obj_state(kind, o):
@@ -515,10 +735,10 @@ def obj_state(kind, o):
 
 def pkg_name(pkg_tok):
     """protocol package token `1,2,3[:name]` -> name of the real Thermo; the driver sees only the CAS list"""
-    ids = [int(x) for x in pkg_tok.split('=')[1].split(',')]
-    for k, v in PKGS.items():
-        if v == ids: return k
-    raise ValueError(pkg_tok)
+    pid, lst = pkg_tok.split('=')
+    name = 'ABCD'[int(pid)]
+    if PKGS[name] != [int(x) for x in lst.split(',')]: raise ValueError(pkg_tok)
+    return name
 
 
 
@@ -531,24 +751,25 @@ def run_ops(ops):
         if dead:
             outs.append('dead'); model_in.append(line); continue
         try:
-            if line.startswith('pickleobj'):
+            if line.startswith(ORACLE_ONLY):
                 apply(W, line)
                 continue          # oracle-only op: nothing for the model
             o = apply(W, line)
         except OracleFail as f:
             failures.append({'signature': f.sig, 'op_index': len(model_in), 'what': f'`{line}`: {f.what}'})
-            if not line.startswith('pickleobj'):
+            if not line.startswith(ORACLE_ONLY):
                 model_in.append(line); outs.append('FAIL ' + f.sig)
             break
         except Exception as e:
-            if line.startswith('pickleobj'): raise
+            if line.startswith(ORACLE_ONLY): raise
             o = 'err=' + errname(e)
         model_in.append(line); outs.append(o)
         if o.startswith('err='): dead = True
     return W, model_in, outs, failures
 
 
-INTERESTING = ('copy', 'copylike', 'copytc', 'link', 'unlink', 'proxy', 'flowproxy', 'pickle', 'pickleobj')
+ORACLE_ONLY = ('pickleobj', 'view')
+INTERESTING = ('copy', 'copyto', 'copylike', 'copytc', 'link', 'unlink', 'proxy', 'flowproxy', 'pickle', 'pickleobj')
 
 
 def run_impl(case: Case) -> ImplResult:
@@ -582,10 +803,11 @@ def tok(x):
 
 
 def pkg_tok(name):
-    return f'{"ABC".index(name)}=' + ','.join(map(str, PKG_IDS[name]))
+    return f'{PKG_ORDER.index(name)}=' + ','.join(map(str, PKG_IDS[name]))
 
 
-PKG_IDS = {'A': [1, 2, 3], 'B': [3, 1], 'C': [2, 1, 3, 4]}
+PKG_IDS = {'A': [1, 2, 3], 'B': [3, 1], 'C': [2, 1, 3, 4], 'D': [3, 2, 1]}
+PKG_ORDER = 'ABCD'
 
 
 def gen_flows(rng, pkg, p_empty=0.2):
@@ -598,7 +820,7 @@ def gen_flows(rng, pkg, p_empty=0.2):
 
 def gen_new(rng, kind=None, pkg=None, phases=None, sid=None, common_only=False):
     kind = kind or rng.choice('SSM')
-    pkg = pkg or rng.choice(['A', 'A', 'B', 'C'])
+    pkg = pkg or rng.choice(['A', 'A', 'B', 'C', 'D'])
     T, P = tok(dy(rng, 250, 450, 2)), tok(dy(rng, 50000, 300000, 0))
     price = tok(dy(rng, 0, 8)) if rng.random() < 0.6 else '0'
     cf = '-' if rng.random() < 0.5 else ','.join(f'{k}:{tok(dy(rng, 0, 8))}' for k in rng.sample([1, 2, 3], rng.randrange(1, 3)))
@@ -668,9 +890,9 @@ def gen_history(rng, length):
             alive[0] = False
     n0 = rng.randrange(2, 5)
     sid = 0
-    base = rng.choice(['A', 'A', 'B', 'C'])
+    base = rng.choice(['A', 'A', 'B', 'C', 'D'])
     for _ in range(n0):
-        pkg = base if rng.random() < 0.6 else rng.choice(['A', 'B', 'C'])
+        pkg = base if rng.random() < 0.6 else rng.choice(['A', 'B', 'C', 'D'])
         sid += 1
         line = gen_new(rng, pkg=pkg, sid=(sid if rng.random() < 0.5 else None))
         if rng.random() < 0.7: line = restrict_common(line, rng)
@@ -683,10 +905,16 @@ def gen_history(rng, length):
         if r < 0.30:
             do(gen_mutation(rng, n, pkgs, W))
         elif r < 0.36 and n < 7:
-            pkg = rng.choice(['A', 'B', 'C']); sid += 1
+            pkg = rng.choice(['A', 'B', 'C', 'D']); sid += 1
             do(restrict_common(gen_new(rng, pkg=pkg, sid=(sid if rng.random() < 0.5 else None)), rng), pkg)
-        elif r < 0.44 and n < 7:
+        elif r < 0.40 and n < 7:
             s = rng.randrange(n); do(f'copy {s}', pkgs[s])
+        elif r < 0.45 and n < 7:
+            s = rng.randrange(n)
+            cur = pkgs[s]
+            opts = {'A': 'DDCAB', 'B': 'ADCCB', 'C': 'CCADB', 'D': 'AACDB'}[cur]
+            tgt = rng.choice(opts)
+            do(f'copyto {s} {pkg_tok(tgt)}', tgt)
         elif r < 0.62:
             a, b = rng.randrange(n), rng.randrange(n); do(f'copylike {a} {b}')
         elif r < 0.66:
@@ -706,8 +934,14 @@ def gen_history(rng, length):
             s = rng.randrange(n); do(f'proxy {s}', pkgs[s])
         elif r < 0.94 and n < 7:
             s = rng.randrange(n); do(f'flowproxy {s}', pkgs[s])
-        elif r < 0.995 and n < 7:
+        elif r < 0.98 and n < 7:
             s = rng.randrange(n); do(f'pickle {s}', pkgs[s])
+        elif rng.random() < 0.7:
+            multi = [j for j, x in enumerate(S) if is_multi(x)]
+            if multi:
+                j = rng.choice(multi); do(f'view {j} {rng.choice(phases_of(S[j]))}')
+            else:
+                do(gen_mutation(rng, n, pkgs, W))
         else:
             do(f'pickleobj {rng.choice(["rxn", "prxn", "chem", "thermo"])} {rng.randrange(4)}')
     return Case(ops, {})
@@ -745,6 +979,27 @@ def grid_cases(rng):
     for kind in ('rxn', 'prxn', 'chem', 'thermo'):
         for n in range(4):
             out.append(Case([f'pickleobj {kind} {n}'], {'tags': ['grid:pickleobj']}))
+    # copy(thermo=...): every kind onto the same / a permuted / a larger / a smaller package
+    for kind, ph in kinds:
+        for src, dst in (('A', 'D'), ('D', 'A'), ('A', 'C'), ('B', 'A'), ('B', 'D'), ('A', 'A'), ('C', 'D'), ('A', 'B')):
+            a = gen_new(rng, kind, src, ph, 1)
+            if src in ('A', 'C') and dst in ('B', 'D') and rng.random() < 0.7: a = restrict_common(a, rng)
+            ops = [a, f'copyto 0 {pkg_tok(dst)}']
+            for _ in range(3): ops.append(gen_mutation(rng, 2, [src, dst]))
+            ops.append(f'copylike {rng.randrange(2)} {rng.randrange(2)}')
+            ops.append(f'copyto 1 {pkg_tok(src)}')
+            ops.append(gen_mutation(rng, 3, [src, dst, src]))
+            out.append(Case(ops, {'tags': ['grid:copyto']}))
+    # re-linking with three streams: sharing must be exactly what the flags of the history say
+    for kind, ph in (('S', None), ('S', 'g'), ('M', 'g,l'), ('M', 'l,s')):
+        for f1, p1, t1 in (('1', '1', '1'), ('1', '1', '0'), ('1', '0', '1'), ('0', '1', '1')):
+            for f, p, tp in itertools.product('01', repeat=3):
+                ops = [gen_new(rng, kind, 'A', ph, 1), gen_new(rng, kind, 'A', ph, 2), gen_new(rng, kind, 'A', ph, 3),
+                       f'link 1 0 {f1} {p1} {t1}', f'link 1 2 {f} {p} {tp}']
+                for _ in range(3): ops.append(gen_mutation(rng, 3, ['A', 'A', 'A']))
+                ops.append(f'unlink {rng.randrange(3)}')
+                for _ in range(2): ops.append(gen_mutation(rng, 3, ['A', 'A', 'A']))
+                out.append(Case(ops, {'tags': ['grid:relink']}))
     return out
 
 
@@ -780,6 +1035,18 @@ def corpus():
         # proxy of a MultiStream; unlink of a proxy
         Case(['new M 1 0=1,2,3 g,l 1:2;- 350 200000 0 -', 'proxy 0']),
         Case(['new S 1 0=1,2,3 g 1:2 350 200000 0 -', 'proxy 0', 'unlink 1', 'setflow 0 g 1 5']),
+        # copy of a multi-phase stream onto a package with the same chemicals in another order
+        Case(['new M 1 0=1,2,3 g,l 3:3;1:7,2:2 330 200000 0 -', 'copyto 0 3=3,2,1', 'setflow 1 l 1 11', 'setflow 0 g 2 4']),
+        # full link, then partial re-link to a third stream
+        Case(['new S 1 0=1,2,3 l 1:1,2:2 300 100000 0 -', 'new S 2 0=1,2,3 l 1:5 310 200000 0 -',
+              'new S 3 0=1,2,3 g 2:9 350 300000 0 -', 'link 1 0 1 1 1', 'link 1 2 1 0 0', 'setflow 2 g 1 42']),
+        Case(['new S 1 0=1,2,3 l 1:1 300 100000 0 -', 'new S 2 0=1,2,3 l 1:5 310 200000 0 -',
+              'new S 3 0=1,2,3 g 2:9 350 300000 0 -', 'link 1 0 1 1 1', 'link 1 2 0 1 0', 'setphase 2 s']),
+        # phase views across link / proxy / unlink
+        Case(['new M 1 0=1,2,3 g,l -;1:1 300 100000 0 -', 'new M 2 0=1,2,3 g,l 1:2;- 350 200000 0 -', 'link 0 1 1 1 1',
+              'setflow 1 l 1 3']),
+        Case(['new M 1 0=1,2,3 g,l -;1:1 300 100000 0 -', 'proxy 0', 'unlink 1', 'setflow 0 l 1 3']),
+        Case(['new M 1 0=1,2,3 g,l -;1:1 300 100000 0 -', 'proxy 0', 'view 0 l', 'setphase 1 S', 'view 0 l', 'unlink 1']),
     ]
 
 
